@@ -34,6 +34,7 @@ import (
 	"sync"
 
 	"github.com/polynetwork/poly/common"
+	"github.com/polynetwork/poly/common/verifhook"
 	"github.com/polynetwork/poly/core/store"
 	"github.com/polynetwork/poly/core/types"
 	"github.com/polynetwork/poly/native"
@@ -165,8 +166,9 @@ func buildS(height uint32, prev common.Uint256, ts uint32, root common.Uint256, 
 // BFS state
 
 type state struct {
-	Desc   []string       // canonical description: "G+1", "E+7", ...
+	Desc   []string       // canonical description: "G+1", "E+7", "R" (reopen), "C2/add:G+1" (crash + reopen) ...
 	Blocks []*types.Block // committed blocks 0..n (0 = genesis)
+	Ops    []sop          // how the ledger got here (parallel to Desc[1:]): commits, reopens, crash+reopen
 }
 
 func (s state) key() string { return strings.Join(s.Desc, ",") }
@@ -259,19 +261,37 @@ func ledgerAt(r *ev.Run, s state) *lctx {
 	if err != nil {
 		r.HarnessError("open: %v", err)
 	}
-	for i, b := range s.Blocks[1:] {
-		// alternate the commit path while replaying: the resulting ledger must not depend on it
-		if i%2 == 0 {
-			err = ch.CommitSync(b)
-		} else {
-			_, err = ch.Commit(b)
-		}
-		if err != nil {
-			r.HarnessError("replay of state %q: block %d rejected: %v", s.key(), i+1, err)
+	c.ch = ch
+	for i, o := range s.Ops {
+		switch o.Kind {
+		case "B":
+			// alternate the commit path while replaying: the resulting ledger must not depend on it
+			if i%2 == 0 {
+				err = c.ch.CommitSync(o.Blk)
+			} else {
+				_, err = c.ch.Commit(o.Blk)
+			}
+			if err != nil {
+				r.HarnessError("replay of state %q: block rejected at step %d: %v", s.key(), i+1, err)
+			}
+		case "R":
+			if err := c.reopen(); err != nil {
+				r.HarnessError("replay of state %q: reopen at step %d failed although it succeeded when the state was found: %v", s.key(), i+1, err)
+			}
+		case "C":
+			if crashed, _ := crashCommit(c.ch, o.Blk, o.Path, o.I); !crashed {
+				r.HarnessError("replay of state %q: no crash at step %d", s.key(), i+1)
+			}
+			if err := c.reopen(); err != nil {
+				r.HarnessError("replay of state %q: recovery at step %d failed although it succeeded when the state was found: %v", s.key(), i+1, err)
+			}
 		}
 	}
-	c.ch, c.key, c.dirty = ch, s.key(), false
-	registerCanon(r, s, ch)
+	if c.ch.L.GetCurrentBlockHash() != s.Blocks[len(s.Blocks)-1].Hash() {
+		r.HarnessError("replay of state %q is not deterministic: tip differs", s.key())
+	}
+	c.key, c.dirty = s.key(), false
+	registerCanon(r, s, c.ch)
 	return c
 }
 
@@ -496,6 +516,18 @@ var devs = []struct {
 		fake := append(append([]mblock{}, m[:len(m)-1]...), mblock{Hash: rnd("other-tip")})
 		return honest(m, 'G', 1, func(b *types.Block) { b.Header.BlockRoot = refRoot(fake) })
 	}},
+	{"root=one-inner-leaf-missing", false, func(m []mblock) *types.Block {
+		if len(m) < 2 {
+			return nil
+		}
+		// accumulator that skips the hash of the tip's parent (what a recovery that forgets a leaf would demand)
+		fake := append(append([]mblock{}, m[:len(m)-2]...), m[len(m)-1])
+		return honest(m, 'G', 1, func(b *types.Block) { b.Header.BlockRoot = refRoot(fake) })
+	}},
+	{"root=tip-leaf-duplicated", false, func(m []mblock) *types.Block {
+		fake := append(append([]mblock{}, m...), m[len(m)-1])
+		return honest(m, 'G', 1, func(b *types.Block) { b.Header.BlockRoot = refRoot(fake) })
+	}},
 	{"root=random,empty-block", false, func(m []mblock) *types.Block {
 		return honest(m, 'E', 7, func(b *types.Block) { b.Header.BlockRoot = rnd("root") })
 	}},
@@ -587,7 +619,8 @@ func main() {
 	}
 	vals = polyenv.Keys(nVals)
 	polyenv.Setup(0, vals)
-	r.Require("commit:canonical", "reject", "noop-nil", "resubmit-unchanged", "header-accepted", "header-rejected")
+	r.Require("commit:canonical", "reject", "noop-nil", "resubmit-unchanged", "header-accepted", "header-rejected",
+		"restart:clean-reopen", "restart:crash+reopen", "restart:recovered-with-block", "restart:recovered-without-block")
 	// concurrency dimension first (small, and it must not be starved by the sequential exploration's budget)
 	var cs *concStats
 	if os.Getenv("C13_NO_CONC") == "" {
@@ -601,15 +634,49 @@ func main() {
 	// hdr+add with a deviation that passes the header-level checks leaves an uncommitted header behind (the
 	// ledger must then be rebuilt), so only two block-root deviations take that path.
 	quickTier := r.Quick()
+	compactDevs := map[string]bool{"height=tip+2": true, "height=tip": true, "prev=grandparent": true, "prev=unknown": true,
+		"ts=parent": true, "ts=parent-1": true, "root=zero": true, "root=of-previous-size": true, "root=one-inner-leaf-missing": true,
+		"root=tip-leaf-duplicated": true, "root=of-next-size": true}
 	hdrRootDevs := map[string]bool{"root=zero": true, "root=of-previous-size": true}
+	verifhook.OnPersist = crashHook
+	crashEvents := map[string]int{"add": persistEventsOfCommit(r, genesis, "add"), "exec+submit": persistEventsOfCommit(r, genesis, "exec+submit")}
+	maxBlocksBeforeCrash := r.QT(2, 3)
 	events := func(s state, d int) []string {
 		var out []string
+		restarted := hasRestart(s)
+		wantR := false
+		// restart events (bounds: <= 2 clean reopens, never two in a row; <= 1 crash per history)
+		if os.Getenv("C13_NO_RESTART") == "" {
+			last := ""
+			if len(s.Ops) > 0 {
+				last = s.Ops[len(s.Ops)-1].Kind
+			}
+			wantR = countOps(s, "R") < 2 && last != "R"
+			// quick tier: no crash after a clean reopen, and beyond the first block one commit path (alternating)
+			if countOps(s, "C") == 0 && len(s.Blocks)-1 <= maxBlocksBeforeCrash && !(quickTier && restarted) {
+				cp := []string{"add", "exec+submit"}
+				if quickTier && len(s.Blocks) > 1 {
+					cp = cp[len(s.Desc)%2 : len(s.Desc)%2+1]
+				}
+				for _, p := range cp {
+					for i := 1; i <= crashEvents[p]; i++ {
+						out = append(out, fmt.Sprintf("restart|C|%d|%s", i, p))
+					}
+				}
+			}
+		}
 		for _, dv := range devs {
-			if dv.info && len(s.Blocks) > 2 {
-				continue // informational deviations: shallow states only
+			if dv.info && (len(s.Blocks) > 2 || restarted) {
+				continue // informational deviations: shallow, never-restarted states only
+			}
+			if quickTier && restarted && !compactDevs[dv.name] {
+				continue // quick tier, after a restart: one or two deviations per class
 			}
 			for _, p := range paths {
-				if p == "hdr+add" && strings.HasPrefix(dv.name, "root=") && !hdrRootDevs[dv.name] {
+				if quickTier && restarted && p != "add" && p != "submit" {
+					continue
+				}
+				if p == "hdr+add" && strings.HasPrefix(dv.name, "root=") && (!hdrRootDevs[dv.name] || restarted) {
 					continue
 				}
 				out = append(out, "dev|"+dv.name+"|"+p)
@@ -621,6 +688,9 @@ func main() {
 					continue
 				}
 				for _, p := range paths {
+					if quickTier && restarted && p != "add" && p != "submit" {
+						continue
+					}
 					out = append(out, fmt.Sprintf("resubmit|%d|%s|%s", j, v, p))
 				}
 			}
@@ -630,14 +700,26 @@ func main() {
 		i := 0
 		for _, k := range kinds {
 			for _, dl := range deltas {
+				lastLevel := quickTier && len(s.Desc) >= depth // successors of this state are not expanded any more
+				if lastLevel && !restarted && !((k == 'G' && dl == 1) || (k == 'E' && dl == 7) || (k == 'D' && dl == 1)) {
+					i++
+					continue
+				}
+				if restarted && !(k == 'G' && dl == 1) && !(k == 'E' && dl == 7 && !lastLevel) {
+					i++
+					continue // after a restart: two canonical successors (each through one rotating path)
+				}
 				for pi, p := range paths {
-					allPaths := i == len(s.Blocks)%6 && (len(s.Blocks) <= 2 || !quickTier) // quick: all four paths only in shallow states
-					if allPaths || pi == (i+len(s.Blocks))%4 {
+					allPaths := !restarted && i == len(s.Blocks)%6 && (len(s.Blocks) <= 2 || !quickTier) // quick: all four paths only in shallow states
+					if allPaths || pi == (i+len(s.Desc))%4 {
 						out = append(out, fmt.Sprintf("ok|%c+%d|%s", k, dl, p))
 					}
 				}
 				i++
 			}
+		}
+		if wantR {
+			out = append(out, "restart|R") // last: every other event of this state runs on the never-reopened ledger
 		}
 		return out
 	}
@@ -649,6 +731,70 @@ func main() {
 		f := strings.Split(e, "|")
 		m := s.model()
 		n := uint32(len(m))
+		if f[0] == "restart" {
+			c := ledgerAt(r, s)
+			fpBefore := canon(c.ch)
+			tok := restartToken(f)
+			op := sop{Kind: "R"}
+			var blk *types.Block
+			if f[1] == "C" {
+				op = sop{Kind: "C", Path: f[3]}
+				op.I, _ = strconv.Atoi(f[2])
+				blk = honest(m, 'G', 1, nil)
+				op.Blk = blk
+				crashed, err := crashCommit(c.ch, blk, op.Path, op.I)
+				if !crashed {
+					r.HarnessError("no crash at event %d of %s: %v", op.I, op.Path, err)
+				}
+				r.Class("restart:crash+reopen")
+			} else {
+				r.Class("restart:clean-reopen")
+			}
+			r.Eval()
+			key := "after-restart:" + f[1]
+			if f[1] == "C" {
+				key = fmt.Sprintf("after-restart:crash-before-write-%s/%s", f[2], f[3])
+			}
+			det := func(x map[string]any) map[string]any {
+				x["state"] = s.Desc
+				x["event"] = e
+				return x
+			}
+			if err := c.reopen(); err != nil {
+				r.Class("restart:REOPEN-FAILED")
+				r.Violation(key+"|reopen-failed", det(map[string]any{"error": err.Error()}))
+				c.drop()
+				return s, true
+			}
+			c.dirty, c.key = true, "" // the context is now at the successor state
+			nm := m
+			ns := state{Desc: append(append([]string{}, s.Desc...), tok), Blocks: s.Blocks, Ops: append(append([]sop{}, s.Ops...), op)}
+			if blk != nil && c.ch.L.GetCurrentBlockHash() == blk.Hash() {
+				// recovered WITH the interrupted block (legal; the other legal outcome is without it)
+				ns.Blocks = append(append([]*types.Block{}, s.Blocks...), blk)
+				nm = ns.model()
+				r.Class("restart:recovered-with-block")
+			} else if blk != nil {
+				r.Class("restart:recovered-without-block")
+			}
+			r.Case(fmt.Sprintf("restart/%s/n=%d/+%d", tok, n, len(nm)-len(m)))
+			if bad := afterRestart(c.ch, nm); len(bad) > 0 {
+				r.Class("restart:INCONSISTENT")
+				r.Violation(key+"|"+strings.SplitN(bad[0], ":", 2)[0], det(map[string]any{"mismatches": bad, "model_height": len(nm) - 1}))
+				// the successor state is still explored: the honest successor / deviating roots show the consequence
+			}
+			registerCanon(r, ns, c.ch)
+			if f[1] == "R" {
+				if canon(c.ch) != fpBefore {
+					r.Class("restart:REOPEN-CHANGED-LEDGER")
+					r.Violation("after-restart:R|stores-or-index-changed", det(map[string]any{}))
+				} else {
+					// a clean reopen left stores, tip and header index identical: the context may go on serving state s
+					c.dirty, c.key = false, s.key()
+				}
+			}
+			return ns, true
+		}
 		var b, twin *types.Block
 		var devName string
 		info := false
@@ -732,9 +878,17 @@ func main() {
 		switch f[0] {
 		case "ok":
 			if !tipMoved || o.err != nil {
+				if hasRestart(s) {
+					// after a restart this is the ledger's fault, not the harness's
+					r.Class("canonical-REJECTED-after-restart")
+					r.Violation("honest-successor-rejected-after-restart/"+path, detail(map[string]any{"history": s.Desc}))
+					c.dirty = true
+					return s, true
+				}
 				r.HarnessError("canonical successor %s rejected in state %v: %v (header: %v)", e, s.Desc, o.err, o.hdrErr)
 			}
-			ns := state{Desc: append(append([]string{}, s.Desc...), f[1]), Blocks: append(append([]*types.Block{}, s.Blocks...), b)}
+			ns := state{Desc: append(append([]string{}, s.Desc...), f[1]), Blocks: append(append([]*types.Block{}, s.Blocks...), b),
+				Ops: append(append([]sop{}, s.Ops...), sop{Kind: "B", Blk: b})}
 			if afterTipH != n || afterTip != b.Hash() {
 				r.Violation("commit-at-wrong-position/"+path, detail(nil))
 			}
